@@ -32,6 +32,39 @@ func strictHostOn(w *world.World) bool {
 
 func genC07(t *rapid.T) HistCase {
 	p := richProfile()
+	p.SparseOK = true
+	kinds := c07Kinds
+	if chanceT(t, "churn", 40) {
+		// feature churn: 4..8 ingresses over 5 hosts that nearly all carry ONE feature whose derived objects
+		// (auth-proxy ports and auth backends, userlists, tcp frontends, oauth backends) are shared, allocated,
+		// released and re-used across syncs
+		targets := []string{"http://10.0.0.9:8080/auth", "https://10.0.0.9/auth", "http://10.0.0.10/check", "http://10.0.0.11/a", "http://10.0.0.12/b",
+			"http://10.0.0.13:81/c", "svc://s1:80", "svc://s2:8000", "svc://s3:9090", "svc://s1:8000", "svc://s2:80", "svc://s9:80"}
+		switch rapid.SampledFrom([]string{"auth-url", "auth-url", "basic-auth", "oauth", "tcp"}).Draw(t, "churnfeature") {
+		case "auth-url":
+			p.Bundles = []annBundle{
+				{Name: "auth-url-backend", Keys: []annChoice{{"auth-url", targets}, {"auth-external-placement", []string{"backend"}}}},
+				{Name: "auth-url-default", Keys: []annChoice{{"auth-url", targets}}},
+			}
+		case "basic-auth":
+			p.Bundles = []annBundle{{Name: "basic-auth", Keys: []annChoice{{"auth-type", []string{"basic"}}, {"auth-secret", []string{"pw", "pw", "pw", "pw2", "missing"}}}}}
+		case "oauth":
+			p.Bundles = []annBundle{
+				{Name: "oauth", Keys: []annChoice{{"oauth", []string{"oauth2_proxy"}}}, Path: "/oauth2"},
+				{Name: "oauth-nopath", Keys: []annChoice{{"oauth", []string{"oauth2_proxy"}}}},
+			}
+		case "tcp":
+			p.Bundles = []annBundle{{Name: "tcp", Keys: []annChoice{{"tcp-service-port", []string{"7000", "7001", "7002"}}}, Root: true}}
+		}
+		p.BundlePct = 85
+		p.Hosts = []string{"h1.local", "h2.local", "h3.local", "h4.local", "h5.local"}
+		p.MinIng, p.MaxIng = 4, 8
+		p.GlobalKeys = []annChoice{
+			{"external-has-lua", []string{"true"}},
+			{"auth-proxy", []string{"_front__auth:14415-14499", "_front__auth:14415-14499", "_front__auth:14415-14418", "_front__auth:14415-14416"}},
+		}
+		kinds = []string{world.KIngress, world.KIngress, world.KIngress, world.KIngress, world.KIngress, world.KEndpoints, world.KEndpoints, world.KService, world.KSecret}
+	}
 	p.Avoid = []avoidRule{
 		{Sig: sigDefBackJoins, Pred: gainsDefaultBackend},
 		// histories never run with strict-host on (fresh syncs with strict-host are still generated)
@@ -58,7 +91,7 @@ func genC07(t *rapid.T) HistCase {
 		nops := g.intn("nops", 1, 3)
 		var ops []world.Op
 		for i := 0; i < nops; i++ {
-			if op, ok := g.genOp(c07Kinds); ok {
+			if op, ok := g.genOp(kinds); ok {
 				ops = append(ops, world.Op{Op: op.Op, Obj: op.Obj.Clone()})
 			}
 		}
@@ -75,7 +108,7 @@ func genC07(t *rapid.T) HistCase {
 
 func execC07(c HistCase) *Failure {
 	st := getStats("C07")
-	maxKinds := 0
+	maxKinds, maxBinds := 0, 0
 	var total hapcfg.LintStats
 	steps := 0
 	f := histRun(c, func(s *ctlsim.Sim, batch int, infos []ctlsim.StepInfo) *Failure {
@@ -93,6 +126,9 @@ func execC07(c HistCase) *Failure {
 		total.UserlistRefs += ls.UserlistRefs
 		total.PathIDRefs += ls.PathIDRefs
 		total.AuthProxyBinds += ls.AuthProxyBinds
+		if ls.AuthProxyBinds > maxBinds {
+			maxBinds = ls.AuthProxyBinds
+		}
 		total.TCPFrontends += ls.TCPFrontends
 		total.LuaAuthRefs += ls.LuaAuthRefs
 		total.FileRefs += ls.FileRefs
@@ -108,7 +144,13 @@ func execC07(c HistCase) *Failure {
 		}
 		return nil
 	})
-	st.Case(c, maxKinds >= 4, fmt.Sprintf("reference-kinds=%d", maxKinds))
+	labels := []string{fmt.Sprintf("reference-kinds=%d", maxKinds)}
+	if maxBinds >= 4 {
+		labels = append(labels, "auth-proxy-binds>=4")
+	} else if maxBinds >= 2 {
+		labels = append(labels, "auth-proxy-binds>=2")
+	}
+	st.Case(c, maxKinds >= 4, labels...)
 	st.Count("reconcile_steps", steps)
 	st.Count("refs_static_backend", total.StaticBackendRefs)
 	st.Count("refs_map_backend", total.MapBackendRefs)
